@@ -10,8 +10,8 @@ open Nrf Rf24 Nrf.Spec Nrf.Proofs
 section
 variable {Lm tt rt : Nat} {s : NetState}
 
-/-- the environment scripts one more arrival -/
-theorem TI.arrive (h : TI Lm tt rt s) (due pipe : Nat) (data : Bytes) (hd : RxOk data) :
+/-- the environment scripts one more arrival, of 0..32 bytes -/
+theorem TI.arrive0 (h : TI Lm tt rt s) (due pipe : Nat) (data : Bytes) (hd : data = [] ∨ RxOk data) :
     TI Lm tt rt (s.setNode fun n => { n with arrivals := n.arrivals ++ [(due, pipe, data)] }) ∧
     (s.setNode fun n => { n with arrivals := n.arrivals ++ [(due, pipe, data)] }).M = s.M + 1 ∧
     (s.setNode fun n => { n with arrivals := n.arrivals ++ [(due, pipe, data)] }).node
@@ -47,6 +47,14 @@ theorem TI.arrive (h : TI Lm tt rt s) (due pipe : Nat) (data : Bytes) (hd : RxOk
     simp only [List.length_append, List.length_singleton]
     omega
 
+/-- the environment scripts one more arrival of 1..32 bytes -/
+theorem TI.arrive (h : TI Lm tt rt s) (due pipe : Nat) (data : Bytes) (hd : RxOk data) :
+    TI Lm tt rt (s.setNode fun n => { n with arrivals := n.arrivals ++ [(due, pipe, data)] }) ∧
+    (s.setNode fun n => { n with arrivals := n.arrivals ++ [(due, pipe, data)] }).M = s.M + 1 ∧
+    (s.setNode fun n => { n with arrivals := n.arrivals ++ [(due, pipe, data)] }).node
+      = { s.node with arrivals := s.node.arrivals ++ [(due, pipe, data)] } :=
+  h.arrive0 due pipe data (Or.inr hd)
+
 /-- a payload lands in the RX FIFO of the node's radio (or is lost: FIFO full, pipe closed, …) -/
 theorem TI.inject (h : TI Lm tt rt s) (pipe : Nat) (data : Bytes) (hd : RxOk data) :
     TI Lm tt rt { s with w := s.w.inject s.node.rf.rid pipe data } ∧
@@ -67,7 +75,7 @@ theorem TI.inject (h : TI Lm tt rt s) (pipe : Nat) (data : Bytes) (hd : RxOk dat
           · exact h.rx e he
           · obtain ⟨a, ha, hda⟩ := h3 e he
             simp only [List.mem_singleton] at ha
-            rw [hda, ha]; exact hd
+            rw [hda, ha]; exact Or.inr hd
         arr := h.arr, tab := h.tab }
   · unfold NetState.M
     rw [hrx]
